@@ -62,7 +62,8 @@ fn mesh1d_case(nodes: &[f64], nvars: usize, pat: usize, exact: bool, acc: &mut A
         let g = m.get_interpolated_vars(nodes[i]);
         ensure!(g.size() == nvars, "interpolated vector has {} entries", g.size());
         for v in 0..nvars {
-            ensure!(same(g[v], val(pat, i, v)), "interpolation at node {} (x = {}): var {} = {} expected the nodal value {}", i, nodes[i], v, g[v], val(pat, i, v));
+            // at a node the interpolant IS the nodal value (t = 0 or 1 exactly), on any grid - no rounding allowance
+            ensure!(g[v] == val(pat, i, v), "interpolation at node {} (x = {}): var {} = {:?} but the nodal value is {:?}", i, nodes[i], v, g[v], val(pat, i, v));
         }
         acc.hit("interpolations at a node");
     }
